@@ -376,7 +376,7 @@ impl World {
 // ---------------------------------------------------------------------------------------------
 // installation through the public API
 
-fn as_fn0(addr: u64) -> fn() -> u32 {
+pub fn as_fn0(addr: u64) -> fn() -> u32 {
     unsafe { std::mem::transmute::<usize, fn() -> u32>(addr as usize) }
 }
 fn as_fnb(addr: u64) -> fn() -> bool {
